@@ -21,6 +21,7 @@ import (
 	"sort"
 	"strings"
 	"sync"
+	"syscall"
 	"time"
 
 	"github.com/bluenviron/mediamtx/internal/zzverif/vcommon"
@@ -276,7 +277,16 @@ var registry = map[string]*Scenario{}
 // workerMain serves jobs on stdin/stdout.
 func workerMain() {
 	in := bufio.NewReaderSize(os.Stdin, 1<<20)
-	out := bufio.NewWriter(os.Stdout)
+	// the protocol owns the original stdout; whatever the code under exploration prints to fd 1 goes to /dev/null
+	proto := os.Stdout
+	if fd, err := syscall.Dup(1); err == nil {
+		if dn, err := os.OpenFile(os.DevNull, os.O_WRONLY, 0); err == nil {
+			if syscall.Dup2(int(dn.Fd()), 1) == nil {
+				proto = os.NewFile(uintptr(fd), "proto")
+			}
+		}
+	}
+	out := bufio.NewWriter(proto)
 	for {
 		line, err := in.ReadBytes('\n')
 		if len(line) > 0 {
